@@ -140,7 +140,7 @@ def run(chk, scratch):
         w = make_world(seed, DELTA[preset])
         pipeline.write_world(w, d)
         out = os.path.join(d, "out")
-        r = pipeline.run(d, out, data_type=dt, threads=2, extra=["--matching_strategy", preset, "--no_model_construction"])
+        r = pipeline.run(d, out, data_type=dt, threads=1 + (seed + len(preset)) % 2, extra=["--matching_strategy", preset, "--no_model_construction"])
         return job, d, w, out, r
     judged_c = judged_n = 0
     types_seen = defaultdict(int)
